@@ -7,7 +7,7 @@
    iceoryx2/src/waitset.rs and the reactors / deadline queue below it; its correspondence
    with the code is checked by the G3 harness (harness/g3/c20).
    `reach cap maxev ord h` = the state reached from a fresh wait set by history h. *)
-From V Require Import model.Base model.WaitSet proofs.WaitSetProofs.
+From V Require Import model.Base model.WaitSet proofs.WaitSetProofs proofs.WaitSetTimeProofs.
 Local Open Scope N_scope.
 
 (* ------------------------------------------------------------------------------------------
@@ -164,3 +164,64 @@ Example c20_attach_reject_full_nonvacuous :
   snd (step (reach 1 1 DupFirst [OAttachN 0]) (OAttachN 0)) = OAttachErr EAlreadyAttached.
 Proof. exact p_c20_attach_reject_full_nonvacuous. Qed.
 Print Assumptions c20_attach_reject_full_nonvacuous.
+
+(* ==========================================================================================
+   Time.  The theorems above abstract from time ("expired" = period <= 1 ns).  The ones below
+   are about the deadline queue WITH its clock (model/WaitSet.v, second part: t_due = the test
+   of DeadlineQueue::handle_missed_deadlines, t_call a b = one zero-timeout processing call that
+   reads the clock at a in duration_until_next_deadline and at b in missed_deadlines).  The user
+   callbacks run after b was read and before previous_iteration is written; they may take
+   arbitrarily long. *)
+
+(* an attachment is reported iff a period boundary start + k*period lies in
+   (previous evaluation, this evaluation]: nothing expired is skipped within one call, and *)
+Theorem c20_due_iff_boundary : forall prev now e,
+  t_period e <> 0 -> t_start e <= now ->
+  (t_due prev now e = true <->
+   exists k, N.max prev (t_start e) < t_start e + k * t_period e /\ t_start e + k * t_period e <= now).
+Proof. exact t_due_iff_boundary. Qed.
+Print Assumptions c20_due_iff_boundary.
+
+(* ... nothing is invented: every report of a call is justified by a boundary crossed since the
+   previous evaluation *)
+Theorem c20_report_sound : forall q a b i,
+  (forall e, In e (t_att q) -> t_period e <> 0 /\ t_start e <= b) ->
+  In i (snd (t_call q a b)) ->
+  exists e k, In e (t_att q) /\ t_idx e = i /\
+              t_prev (t_peek q a) < t_start e + k * t_period e /\ t_start e + k * t_period e <= b.
+Proof. exact t_report_sound. Qed.
+Print Assumptions c20_report_sound.
+
+(* c20_no_expiry_lost.  No expiry is lost across consecutive processing calls: a boundary that
+   falls after the evaluation time b1 of call k -- in particular while the callbacks of call k
+   are running, however long they take -- and not after the evaluation time b2 of call k+1 is
+   reported by call k+1. *)
+Theorem c20_no_expiry_lost : forall q a1 b1 a2 b2 e k,
+  In e (t_att q) -> t_period e <> 0 -> t_start e <= b1 -> b1 <= a2 -> a2 <= b2 ->
+  b1 < t_start e + k * t_period e -> t_start e + k * t_period e <= b2 ->
+  In (t_idx e) (snd (t_call (fst (t_call q a1 b1)) a2 b2)).
+Proof. exact t_no_expiry_lost. Qed.
+Print Assumptions c20_no_expiry_lost.
+
+(* interval 100 + deadline 400 attached at 0; call at 150 (callbacks run until 450); call at 450:
+   the code reports both; with previous_iteration := time after the callbacks it reports nothing *)
+Example c20_no_expiry_lost_nonvacuous :
+  let q := t_add (t_add (tdq_new 0) 100 0) 400 0 in
+  snd (t_call q 150 150) = [0] /\ snd (t_call (fst (t_call q 150 150)) 450 450) = [0; 1] /\
+  snd (t_call_late (fst (t_call_late q 150 150 300)) 450 450 0) = [].
+Proof. exact t_no_expiry_lost_nonvacuous. Qed.
+Print Assumptions c20_no_expiry_lost_nonvacuous.
+
+(* the variant of the rule that writes previous_iteration AFTER the callbacks have returned
+   (t_report_late) does not have this property: deadline 400 attached at 0, call at 150 whose
+   callbacks take 350, next call at 500 reports nothing *)
+Definition c20_no_expiry_lost_late_full : Prop := t_no_expiry_lost_late_full.
+Theorem c20_no_expiry_lost_late_refuted : ~ c20_no_expiry_lost_late_full.
+Proof. exact t_no_expiry_lost_late_refuted. Qed.
+Print Assumptions c20_no_expiry_lost_late_refuted.
+
+(* the boundary formulation used as the oracle of the timed scenarios = the code's test *)
+Theorem c20_timed_oracle_is_code : forall q now,
+  (forall e, In e (t_att q) -> t_start e <= now) -> t_missed q now = t_spec_missed q now.
+Proof. exact t_missed_spec. Qed.
+Print Assumptions c20_timed_oracle_is_code.
